@@ -76,6 +76,7 @@ func (k Keeper) AddAllowedBidders(ctx context.Context, auctionId uint64, allowed
 		if err != nil {
 			return err
 		}
+		ab.Bidder = bidder.String()
 		if err := k.AllowedBidder.Set(ctx, collections.Join(auctionId, bidder), ab); err != nil {
 			return err
 		}
@@ -444,7 +445,7 @@ func (k Keeper) CreateFixedPriceAuction(ctx context.Context, msg *types.MsgCreat
 	ba := types.NewBaseAuction(
 		nextId,
 		types.AuctionTypeFixedPrice,
-		msg.Auctioneer,
+		auctioneer.String(),
 		types.SellingReserveAddress(nextId).String(),
 		types.PayingReserveAddress(nextId).String(),
 		msg.StartPrice,
@@ -558,7 +559,7 @@ func (k Keeper) CreateBatchAuction(ctx context.Context, msg *types.MsgCreateBatc
 	ba := types.NewBaseAuction(
 		nextId,
 		types.AuctionTypeBatch,
-		msg.Auctioneer,
+		auctioneer.String(),
 		types.SellingReserveAddress(nextId).String(),
 		types.PayingReserveAddress(nextId).String(),
 		msg.StartPrice,
@@ -654,7 +655,11 @@ func (k Keeper) CancelAuction(ctx context.Context, msg *types.MsgCancelAuction) 
 		return err
 	}
 
-	if auction.GetAuctioneer().String() != msg.Auctioneer {
+	auctioneer, err := sdk.AccAddressFromBech32(msg.Auctioneer)
+	if err != nil {
+		return err
+	}
+	if !auction.GetAuctioneer().Equals(auctioneer) {
 		return sdkerrors.Wrap(errors.ErrUnauthorized, "only the auctioneer can cancel the auction")
 	}
 
